@@ -52,6 +52,14 @@ func pureInstr(instr ssa.Instruction) bool {
 	case *ssa.ChangeType, *ssa.ChangeInterface, *ssa.Extract, *ssa.Field, *ssa.MakeInterface:
 		return true
 	case *ssa.Call:
+		if f := i.Call.StaticCallee(); f != nil && f.Pkg != nil && f.Pkg.Pkg.Path() == "math/bits" {
+			switch f.Name() {
+			case "LeadingZeros8", "LeadingZeros16", "LeadingZeros32", "LeadingZeros64", "LeadingZeros",
+				"Len8", "Len16", "Len32", "Len64", "Len", "TrailingZeros8", "TrailingZeros16", "TrailingZeros32",
+				"TrailingZeros64", "TrailingZeros", "OnesCount8", "OnesCount16", "OnesCount32", "OnesCount64", "OnesCount":
+				return true // engine intrinsics: total, no side effects
+			}
+		}
 		if b, ok := i.Call.Value.(*ssa.Builtin); ok {
 			if b.Name() == "len" || b.Name() == "cap" {
 				switch i.Call.Args[0].Type().Underlying().(type) {
